@@ -63,8 +63,8 @@ def ops_for(rng, lay, tier):
                 keep = vals[:2] + vals[-6:] + rng.sample(vals[2:-6], 16) if fr is not frames[2] else vals
                 vals = keep
             for val in vals:
-                ops.append({"op": "write", "i": i, "v": val})
-                ops.append({"op": "read", "i": i})
+                ops.append({"op": "write", "i": i, "v": val, "how": "node" if rng.random() < 0.2 else "map"})
+                ops.append({"op": "read", "i": i, "how": "node" if rng.random() < 0.2 else "map"})
                 j = rng.randrange(1, len(lay) + 1)
                 ops.append({"op": "read", "i": j})
     return ops
